@@ -142,6 +142,15 @@ impl<'a> ProgGen<'a> {
     }
 
     fn lit(&mut self, t: Ty) -> String {
+        // now and then a value at the very end of its type's range: operators are most likely to go wrong there
+        // (after a wave-8 seed: `a - b` computed as `a + (-b)` fails for b = -32768 although the difference fits)
+        if self.rng.chance(1, 14) {
+            match t {
+                Ty::Int => return (*self.rng.pick(&["32767", "-32768", "-32767", "32766"])).to_owned(),
+                Ty::Long => return (*self.rng.pick(&["2147483647", "-2147483648", "-2147483647", "32768", "-32769"])).to_owned(),
+                _ => {}
+            }
+        }
         match t {
             Ty::Int => format!("{}", self.rng.range(-9, 20)),
             Ty::Long => {
